@@ -123,29 +123,60 @@ impl F {
     }
 }
 
-/// map_coords / map_coords_in_place / try_map_coords(Ok) give f∘traversal; try_map_coords failing
-/// at position k returns the error and calls f on no coordinate after k
+/// One clause per call (`$mode`), because each of them allocates a new geometry and CBMC's cost is
+/// dominated by the heap traffic:  0 = map_coords gives f∘traversal;  1 = map_coords_in_place agrees
+/// with map_coords;  2 = try_map_coords(Ok∘f) agrees with map_coords;  3 = try_map_coords failing
+/// at a symbolic position k returns the error and calls f on no coordinate after k;  9 = all.
 macro_rules! check_map {
-    ($g:expr, $want:expr, $s:expr) => {{
+    ($g:expr, $want:expr, $s:expr) => { check_map!($g, $want, $s, 9u8) };
+    ($g:expr, $want:expr, $s:expr, $mode:expr) => {{
         let f = F::any($s);
         let n = $want.len();
-        let m = $g.map_coords(|c| f.ap(c));
-        assert!(m.coords_count() == n, "map_coords changes the number of coordinates");
-        {
-            let mut it = m.coords_iter();
-            let mut i = 0;
-            while i < n {
-                assert!(it.next() == Some(f.ap($want[i])), "map_coords: traversal of the result is not f applied to the traversal");
-                i += 1;
+        let mode: u8 = $mode;
+        if mode == 0 || mode == 9 {
+            let m = $g.map_coords(|c| f.ap(c));
+            assert!(m.coords_count() == n, "map_coords changes the number of coordinates");
+            {
+                let mut it = m.coords_iter();
+                let mut i = 0;
+                while i < n {
+                    assert!(it.next() == Some(f.ap($want[i])), "map_coords: traversal of the result is not f applied to the traversal");
+                    i += 1;
+                }
             }
+            core::mem::forget(m);
         }
-        let mut g2 = $g.clone();
-        g2.map_coords_in_place(|c| f.ap(c));
-        assert!(g2 == m, "map_coords_in_place disagrees with map_coords");
-        let t: Result<_, u8> = $g.try_map_coords(|c| Ok(f.ap(c)));
-        assert!(t.is_ok() && t.unwrap() == m, "try_map_coords(Ok) disagrees with map_coords");
+        if mode == 1 || mode == 9 {
+            let mut g2 = $g.clone();
+            g2.map_coords_in_place(|c| f.ap(c));
+            assert!(g2.coords_count() == n, "map_coords_in_place changes the number of coordinates");
+            {
+                let mut it = g2.coords_iter();
+                let mut i = 0;
+                while i < n {
+                    assert!(it.next() == Some(f.ap($want[i])), "map_coords_in_place: traversal of the result is not f applied to the traversal");
+                    i += 1;
+                }
+            }
+            core::mem::forget(g2);
+        }
+        if mode == 2 || mode == 9 {
+            let t: Result<_, u8> = $g.try_map_coords(|c| Ok(f.ap(c)));
+            assert!(t.is_ok(), "try_map_coords(Ok) returned an error");
+            let t = t.unwrap();
+            assert!(t.coords_count() == n, "try_map_coords(Ok) changes the number of coordinates");
+            {
+                let mut it = t.coords_iter();
+                let mut i = 0;
+                while i < n {
+                    assert!(it.next() == Some(f.ap($want[i])), "try_map_coords(Ok): traversal of the result is not f applied to the traversal");
+                    i += 1;
+                }
+            }
+            core::mem::forget(t);
+        }
         // failing at a symbolic position k
-        if n > 0 {
+        if (mode == 3 || mode == 9) && n > 0 {
             let k = $s.u8() as usize;
             vassume!(k < n);
             let calls = Cell::new(0usize);
@@ -164,8 +195,6 @@ macro_rules! check_map {
             vcover!(k + 1 == n, "f fails on the last coordinate");
             vcover!(k == 0, "f fails on the first coordinate");
         }
-        core::mem::forget(g2);
-        core::mem::forget(m);
     }};
 }
 
@@ -241,40 +270,41 @@ pub fn t_rect<S: Src>(s: &mut S) {
     assert!(n == 4, "Rect lines_iter must yield 4 segments");
 }
 
-pub fn t_linestring<S: Src>(s: &mut S, n: usize) {
+pub fn t_linestring<S: Src>(s: &mut S, n: usize, mode: u8) {
     let (a, b, c) = (any_c(s), any_c(s), any_c(s));
     let all = [a, b, c];
     let want = &all[..n];
     let g = LineString::new(want.to_vec());
-    check_traversal(&g, want, want);
-    let segs = [(a, b), (b, c)];
-    check_lines(&g, &segs[..n.saturating_sub(1)]);
-    check_bounds(g.bounding_rect(), want);
-    check_extremes(&g, want);
-    match n {
-        0 => check_map!(g, [a; 0], s),
-        1 => check_map!(g, [a], s),
-        _ => check_map!(g, [a, b, c], s),
+    if mode == 8 {
+        check_traversal(&g, want, want);
+        let segs = [(a, b), (b, c)];
+        check_lines(&g, &segs[..n.saturating_sub(1)]);
+        check_bounds(g.bounding_rect(), want);
+        check_extremes(&g, want);
+    } else {
+        match n {
+            0 => check_map!(g, [a; 0], s, mode),
+            1 => check_map!(g, [a], s, mode),
+            _ => check_map!(g, [a, b, c], s, mode),
+        }
     }
     core::mem::forget(g);
 }
 
-pub fn t_polygon<S: Src>(s: &mut S, holes: usize, map: bool) {
+pub fn t_polygon<S: Src>(s: &mut S, holes: usize, mode: u8) {
     let (a, b, c) = (any_c(s), any_c(s), any_c(s));
     let (d, e, f_) = (any_c(s), any_c(s), any_c(s));
     let (h, i_, j) = (any_c(s), any_c(s), any_c(s));
     // rings closed by construction (Polygon::new has nothing to push)
-    let mut hs = Vec::with_capacity(holes);
-    if holes >= 1 {
-        hs.push(LineString::new(vec![d, e, f_, d]));
-    }
-    if holes >= 2 {
-        hs.push(LineString::new(vec![h, i_, j, h]));
-    }
+    let hs = match holes {
+        0 => vec![],
+        1 => vec![LineString::new(vec![d, e, f_, d])],
+        _ => vec![LineString::new(vec![d, e, f_, d]), LineString::new(vec![h, i_, j, h])],
+    };
     let g = Polygon::new(LineString::new(vec![a, b, c, a]), hs);
     let all = [a, b, c, a, d, e, f_, d, h, i_, j, h];
     let want = &all[..4 + 4 * holes];
-    if !map {
+    if mode == 8 {
         check_traversal(&g, want, &all[..4]);
         let segs = [(a, b), (b, c), (c, a), (d, e), (e, f_), (f_, d), (h, i_), (i_, j), (j, h)];
         check_lines(&g, &segs[..3 + 3 * holes]);
@@ -283,9 +313,9 @@ pub fn t_polygon<S: Src>(s: &mut S, holes: usize, map: bool) {
         check_extremes(&g, &all[..4]);
     } else {
         match holes {
-            0 => check_map!(g, [a, b, c, a], s),
-            1 => check_map!(g, [a, b, c, a, d, e, f_, d], s),
-            _ => check_map!(g, [a, b, c, a, d, e, f_, d, h, i_, j, h], s),
+            0 => check_map!(g, [a, b, c, a], s, mode),
+            1 => check_map!(g, [a, b, c, a, d, e, f_, d], s, mode),
+            _ => check_map!(g, [a, b, c, a, d, e, f_, d, h, i_, j, h], s, mode),
         }
     }
     core::mem::forget(g);
@@ -400,15 +430,24 @@ harnesses! {
     #[kani::unwind(4)] fn c19_line(s) { t_line(s) }
     #[kani::unwind(5)] fn c19_triangle(s) { t_triangle(s) }
     #[kani::unwind(6)] fn c19_rect(s) { t_rect(s) }
-    #[kani::unwind(5)] fn c19_linestring_0(s) { t_linestring(s, 0) }
-    #[kani::unwind(5)] fn c19_linestring_1(s) { t_linestring(s, 1) }
-    #[kani::unwind(5)] fn c19_linestring_3(s) { t_linestring(s, 3) }
+    #[kani::unwind(5)] fn c19_linestring_0(s) { t_linestring(s, 0, 8) }
+    #[kani::unwind(5)] fn c19_linestring_0_map(s) { t_linestring(s, 0, 9) }
+    #[kani::unwind(5)] fn c19_linestring_1(s) { t_linestring(s, 1, 8) }
+    #[kani::unwind(5)] fn c19_linestring_1_map(s) { t_linestring(s, 1, 9) }
+    #[kani::unwind(5)] fn c19_linestring_3(s) { t_linestring(s, 3, 8) }
+    #[kani::unwind(5)] fn c19_linestring_3_map0(s) { t_linestring(s, 3, 0) }
+    #[kani::unwind(5)] fn c19_linestring_3_map1(s) { t_linestring(s, 3, 1) }
+    #[kani::unwind(5)] fn c19_linestring_3_map2(s) { t_linestring(s, 3, 2) }
+    #[kani::unwind(5)] fn c19_linestring_3_map3(s) { t_linestring(s, 3, 3) }
     #[kani::unwind(5)] fn c19_triangle_map(s) { t_triangle_map(s) }
-    #[kani::unwind(6)] fn c19_polygon_h0(s) { t_polygon(s, 0, false) }
-    #[kani::unwind(10)] fn c19_polygon_h1(s) { t_polygon(s, 1, false) }
-    #[kani::unwind(14)] fn c19_polygon_h2(s) { t_polygon(s, 2, false) }
-    #[kani::unwind(6)] fn c19_polygon_h0_map(s) { t_polygon(s, 0, true) }
-    #[kani::unwind(10)] fn c19_polygon_h1_map(s) { t_polygon(s, 1, true) }
+    #[kani::unwind(6)] fn c19_polygon_h0(s) { t_polygon(s, 0, 8) }
+    #[kani::unwind(10)] fn c19_polygon_h1(s) { t_polygon(s, 1, 8) }
+    #[kani::unwind(14)] fn c19_polygon_h2(s) { t_polygon(s, 2, 8) }
+    #[kani::unwind(6)] fn c19_polygon_h0_map0(s) { t_polygon(s, 0, 0) }
+    #[kani::unwind(6)] fn c19_polygon_h0_map1(s) { t_polygon(s, 0, 1) }
+    #[kani::unwind(6)] fn c19_polygon_h0_map3(s) { t_polygon(s, 0, 3) }
+    #[kani::unwind(10)] fn c19_polygon_h1_map0(s) { t_polygon(s, 1, 0) }
+    #[kani::unwind(10)] fn c19_polygon_h1_map3(s) { t_polygon(s, 1, 3) }
     #[kani::unwind(4)] fn c19_multipoint_0(s) { t_multipoint(s, 0) }
     #[kani::unwind(4)] fn c19_multipoint_2(s) { t_multipoint(s, 2) }
     #[kani::unwind(7)] fn c19_multilinestring(s) { t_multilinestring(s) }
@@ -420,8 +459,32 @@ harnesses! {
     #[kani::unwind(10)] fn c19_geometry_polygon(s) { t_geometry(s, 3) }
     #[kani::unwind(5)] fn c19_geometry_triangle(s) { t_geometry(s, 4) }
     #[kani::unwind(5)] fn c19_collection(s) { t_collection(s) }
+    #[kani::unwind(8)] fn c19_probe_poly_map(s) { probe::poly_map_only(s) }
+    #[kani::unwind(8)] fn c19_probe_poly_new(s) { probe::poly_new_only(s) }
     #[kani::unwind(5)] fn c19_sanity_must_fail(s) {
-        t_linestring(s, 3);
+        t_linestring(s, 3, 8);
         assert!(false, "sanity twin reached its end");
+    }
+}
+
+// ---- probes (not registered in any family): cost structure of polygon operations
+pub mod probe {
+    use super::*;
+    pub fn poly_map_only<S: Src>(s: &mut S) {
+        let (a, b, c) = (any_c(s), any_c(s), any_c(s));
+        let (d, e, f_) = (any_c(s), any_c(s), any_c(s));
+        let g = Polygon::new(LineString::new(vec![a, b, c, a]), vec![LineString::new(vec![d, e, f_, d])]);
+        let m = g.map_coords(|c| coord! {x: c.y, y: c.x});
+        assert!(m.exterior().0[1] == coord! {x: b.y, y: b.x}, "probe");
+        assert!(m.interiors()[0].0[2] == coord! {x: f_.y, y: f_.x}, "probe");
+        core::mem::forget(m);
+        core::mem::forget(g);
+    }
+    pub fn poly_new_only<S: Src>(s: &mut S) {
+        let (a, b, c) = (any_c(s), any_c(s), any_c(s));
+        let (d, e, f_) = (any_c(s), any_c(s), any_c(s));
+        let g = Polygon::new(LineString::new(vec![a, b, c, a]), vec![LineString::new(vec![d, e, f_, d])]);
+        assert!(g.interiors()[0].0[2] == f_, "probe");
+        core::mem::forget(g);
     }
 }
